@@ -18,7 +18,8 @@ PROPS = {
     "C01": {
         "title": "exactly-once delivery",
         "rules": [r_m1.rule_atom, r_m1.rule_one, r_m1.rule_prov, r_m1.rule_amt, r_m1.rule_clamp, r_m1.rule_endguard,
-                  r_m1.rule_complete, r_m1.rule_ctor, r_ticket.rule_ticket, r_ticket.rule_gate, r_live.rule_amt_pub, r_m1.rule_exact, r_fwd.rule_siblings, r_paths.rule_paths, r_fwd.rule_wrap],
+                  r_m1.rule_complete, r_m1.rule_ctor, r_ticket.rule_ticket, r_ticket.rule_gate, r_live.rule_amt_pub, r_m1.rule_exact, r_fwd.rule_siblings, r_paths.rule_paths, r_fwd.rule_wrap,
+                  r_ovf.rule_ovf, r_ovf.rule_ovf_ticket],
         "explanation": "Decides that the code is an instance of the fetch_add-interval protocol (DESIGN 1.2, M1/M2): for every "
                        "world (5 implementors + 4 adaptor instantiations) x every pull unit (single, one-shot chunk, buffered) "
                        "the unit is evaluated with crate-local callees inlined; rules: ATOM (who may write the counters; no "
@@ -61,18 +62,23 @@ PROPS = {
     "C04": {
         "title": "one linearizable cursor",
         "rules": [r_m1.rule_one, r_m1.rule_prov, r_m1.rule_atom, r_ticket.rule_ticket, r_ticket.rule_gate, r_live.rule_amt_pub,
-                  r_ticket.rule_ord, r_fwd.rule_fwd, r_m1.rule_endguard, r_paths.rule_paths],
+                  r_ticket.rule_ord, r_fwd.rule_fwd, r_m1.rule_endguard, r_paths.rule_paths,
+                  r_m1.rule_exact, r_m1.rule_amt, r_m1.rule_nonempty, r_m1.rule_complete,
+                  r_ovf.rule_ovf_ticket],
         "explanation": "The structural content of linearizability: each pull has exactly one RMW on the position counter inside "
                        "the call (ONE), what it delivers is a function of that RMW's result only (PROV), the counter only grows "
                        "on pull paths and is never stored to by pulls (ATOM), the wrapper serves tickets on equality only and "
-                       "advances by the reservation (TICKET, GATE, AMT.pub). Evidence names the linearisation point per unit.",
+                       "advances by the reservation (TICKET, GATE, AMT.pub). Evidence names the linearisation point per unit. "
+                       "What a reservation delivers is exactly its interval, in order: EXACT (slots of the re-used buffer), AMT, "
+                       "NONEMPTY, COMPLETE.",
         "declined": "real-time order of concurrent histories as an observable (implied by the RMW lying inside the call interval)",
         "technique": "static analysis: unique-RMW-per-pull + provenance (shares rules with C01)",
     },
     "C05": {
         "title": "the end is permanent",
         "rules": [r_m1.rule_atom, r_m1.rule_endguard, r_m1.rule_complete, r_ticket.rule_sticky, r_state.rule_done,
-                  r_ticket.rule_gate, r_state.rule_len, r_paths.rule_paths, r_state.rule_skip],
+                  r_ticket.rule_gate, r_state.rule_len, r_paths.rule_paths, r_state.rule_skip,
+                  r_ovf.rule_ovf],
         "explanation": "ATOM.b: no pull stores to the position counter (it only grows); ENDGUARD: Some only under reserved idx < "
                        "LEN on the index itself with LEN immutable; STICKY: the end flag is only ever stored true; DONE-SET: "
                        "whenever the wrapped iterator returned None the flag is set before the pull returns (the exhausted "
@@ -96,7 +102,8 @@ PROPS = {
     "C07": {
         "title": "exclusive, ordered use of the wrapped iterator; no data races",
         "rules": [r_ticket.rule_ticket, r_ticket.rule_gate, r_ticket.rule_ord, r_ticket.rule_sticky, r_ticket.rule_cell,
-                  r_live.rule_amt_pub, r_paths.rule_paths],
+                  r_live.rule_amt_pub, r_paths.rule_paths,
+                  r_state.rule_skip, r_ovf.rule_ovf_ticket],
         "explanation": "ORD: the load that admits a ticket holder is Acquire or stronger, every RMW that publishes is Release or "
                        "stronger (constants read from the resolved atomic calls through their wrappers), no use of the wrapped "
                        "iterator after the release; TICKET/GATE: the cell is touched only inside a held region entered through "
@@ -122,13 +129,16 @@ PROPS = {
     },
     "C09": {
         "title": "progress",
-        "rules": [r_live.rule_live, r_live.rule_amt_pub, r_ticket.rule_gate, r_state.rule_done, r_live.rule_unw, r_paths.rule_paths],
+        "rules": [r_live.rule_live, r_live.rule_amt_pub, r_ticket.rule_gate, r_state.rule_done, r_live.rule_unw, r_paths.rule_paths,
+                  r_m1.rule_nonempty, r_m1.rule_endguard, r_m1.rule_complete, r_fwd.rule_each],
         "explanation": "LIVE.a: no function reachable from a pull of a known-size source contains a loop on an atomic load or a "
                        "blocking std call (complete decision of 'never waits'); LIVE.b: wait loops of the wrapper re-read "
                        "now-serving and exit on Equal, Less and the end flag; LIVE.c: from every admission every normal path to "
                        "a return releases (RMW on now-serving or end flag); LIVE.d: an admitted ticket is always continued; "
                        "LIVE.e: a reserved ticket is never abandoned (None only when passed / flag set / after admission); "
-                       "AMT.pub: the release is by the full reservation.",
+                       "AMT.pub: the release is by the full reservation. Termination of the default algorithms: their loops "
+                       "end only on None (EACH), so a pull must not answer Some(empty chunk) on an exhausted source and must "
+                       "report the end exactly at LEN (NONEMPTY, ENDGUARD, COMPLETE).",
         "declined": "liveness under a real (fair) scheduler as such",
         "technique": "static analysis: loop/SCC analysis with atomic-load dependence; must-pass-through on the CFG",
     },
@@ -208,7 +218,8 @@ PROPS = {
     },
     "C16": {
         "title": "boundary arithmetic",
-        "rules": [r_ovf.rule_ovf, r_ovf.rule_zero, r_state.rule_seq, r_m1.rule_endguard, r_m1.rule_nonempty],
+        "rules": [r_ovf.rule_ovf, r_ovf.rule_zero, r_state.rule_seq, r_m1.rule_endguard, r_m1.rule_nonempty,
+                  r_ovf.rule_ovf_ticket],
         "explanation": "OVF: every +, -, * on usize, every generic Idx addition and every fetch_add amount in non-test code is a "
                        "site; a site is violated when an unbounded operand (public chunk-size parameter, puller chunk size) "
                        "reaches it unclamped or the amount is not bounded by LEN, discharged when guard facts entail no "
@@ -246,13 +257,14 @@ PROPS = {
     },
     "C19": {
         "title": "non-consuming iteration; independence",
-        "rules": [r_type.rule_ind, r_type.rule_wit_for("C19")],
+        "rules": [r_type.rule_ind, r_type.rule_wit_for("C19"), r_m1.rule_prov, r_m1.rule_amt, r_m1.rule_clamp],
         "explanation": "IND: the borrowing iterators (slice, range) and their pullers contain no unsafe operation and no interior "
                        "mutability but the counter they own by value; each con_iter() wraps the collection's own slice / a copy "
                        "of the range bounds (no element copy); Clone builds a fresh counter from the value of the old one; a "
                        "positive control shows the detector sees UnsafeCell storage; WIT: references cannot outlive the "
                        "collection, the collection cannot be mutated while borrowed, and is fully usable afterwards; clones "
-                       "and separate iterators are independent values.",
+                       "and separate iterators are independent values. The references delivered are those at the reserved "
+                       "positions of the stored slice (PROV, AMT, CLAMP), whatever position an iterator or clone starts from.",
         "declined": "pointer identity at run time (implied by: the stored slice is the argument; elements are reached through "
                     "get/index on it)",
         "technique": "static analysis: absence-of-unsafe/interior-mutability audit + compile witnesses",
